@@ -60,6 +60,15 @@ Qed.
 Lemma exp_mono (x y : R) : x <= y -> exp x <= exp y.
 Proof. intros [H|H]; [left; apply exp_increasing; exact H | subst; right; reflexivity]. Qed.
 
+(* LogUniformPrior since e638353: both branches of the scale are the same real number *)
+Lemma log10R_ratio (lo hi : R) : 0 < lo -> 0 < hi -> log10R (hi / lo) = log10R hi - log10R lo.
+Proof.
+  intros Hl Hh. unfold log10R.
+  assert (E : ln (hi / lo) = ln hi - ln lo).
+  { unfold Rdiv. rewrite ln_mult by (try apply Rinv_0_lt_compat; lra). rewrite ln_Rinv by exact Hl. ring. }
+  rewrite E. field. pose proof ln10_pos; lra.
+Qed.
+
 Section Analytic.
   (* standard normal CDF, its inverse, erfinv, and the 14-decimal rounding *)
   Variables (Phi PhiInv erfinv round14 : R -> R).
@@ -775,3 +784,11 @@ Section Ends.
       destruct (ends_checked p 1) as [v [E [_ [_ V]]]]; [rewrite X; lra|]. rewrite (V NU), X in E. exact E.
   Qed.
 End Ends.
+
+(* the repaired scale of LogUniformPrior is log10 upper - log10 lower whichever branch is taken, for any finiteness test *)
+Lemma loguniform_scale_guarded (fin : R -> bool) (Phi PhiInv erfinv round14 : R -> R) (lo hi : R) : 0 < lo -> 0 < hi ->
+  loguniform_scale (mkArith R Rplus Rminus Rmult Rdiv Rleb Rltb 0 1 2 (sqrt 2) Reps round14 fin) (RS Phi PhiInv erfinv)
+                   LURatioGuard lo hi = log10R hi - log10R lo.
+Proof.
+  intros Hl Hh. unfold loguniform_scale. simpl. destruct (fin (hi / lo)); [apply log10R_ratio; assumption | reflexivity].
+Qed.
